@@ -163,9 +163,10 @@ PROPS["C19"] = {
 PROPS["C09"] = {
     "level": "other",
     "technique": "Verus contracts on the extracted Compactor::garbage_collect (every path handed to the object store's delete was pending, past its grace period and unpinned when checked; the four closures are lifted and verified), Compactor::enforce_retention (only chunks whose newest row is older than the cut-off leave the catalog), BoundedClock::retention_cutoff_nanos and ChunkPinRegistry::is_pinned",
-    "verus": ["c09_gc.rs.in"],
+    "verus": ["c09_gc.rs.in", "c03_compactor.rs.in"],
     "explanation": "Sequential per-pass obligations proved for all pending lists, pin sets, clocks and configurations in the stated ranges. A pin taken between GC's check and its delete (schedule) and the persistence of pending deletions across restarts (load / persist merge) are not covered; the catalog's max_timestamp is taken to be the chunk's true newest row (C06/C07 contracts).",
     "assumptions": [
+        "compactor units shared with C03: a path is handed to the deletion queue only after the swap that removed it from the catalog reported success (typestate preconditions on schedule_deletion / complete_compaction shims)",
         "iter().filter().filter().map().collect(), Vec::retain and into_iter().filter().collect() have their std meaning over the lifted closure predicates",
         "chrono instants are a totally ordered integer; clock readings lie in [0, 2^62); retention_days <= 36500 and max_skew < 2^60 ns (no overflow in the cut-off arithmetic)",
         "get_chunks returns entries carrying the catalog's max_timestamp for their path (C07 lookup contract)",
